@@ -97,3 +97,22 @@ package calc
 //@            && tierInfo.EgressPolicies[old(len(tierInfo.EgressPolicies))].Kind == pol.Key.Kind
 //@   ensures forall k int :: 0 <= k && k < old(len(tierInfo.EgressPolicies)) ==> tierInfo.EgressPolicies[k] == old(tierInfo.EgressPolicies[k])
 //@   ensures !(egressAllowed && polGovEg(pol)) ==> len(tierInfo.EgressPolicies) == old(len(tierInfo.EgressPolicies))
+
+//@ -- Tier bookkeeping on a tier update: after OnUpdate the tier table holds, for the updated tier, exactly the
+//@ -- latest order (also when it becomes unset), default action and validity, and the key entered into the sorted
+//@ -- tier tree carries those same values - a stale order would sort the tier in the wrong place.
+//@ func NewTierInfo
+//@   property C03
+//@   ensures res != nil && fresh(res) && res.Name == name && res.Order == nil && !res.Valid && res.DefaultAction == ""
+//@   assigns nothing
+//@ func (*PolicySorter).OnUpdate
+//@   property C03
+//@   option safety off
+//@   requires poc != nil && poc.tiers != nil
+//@   requires forall n string :: (n in poc.tiers) && poc.tiers[n] != nil ==> poc.tiers[n].Name == n
+//@   requires istype(update.KVPair.Key, model.TierKey) && update.KVPair.Value != nil ==> istype(update.KVPair.Value, *model.Tier) && cast(update.KVPair.Value, *model.Tier) != nil
+//@   ghost at call ReplaceOrInsert#2: check item.Valid ; check item.Name == cast(update.KVPair.Key, model.TierKey).Name ; check item.Order == cast(update.KVPair.Value, *model.Tier).Order ; check istype(update.KVPair.Key, model.TierKey)
+//@   ensures istype(update.KVPair.Key, model.TierKey) && update.KVPair.Value != nil ==> (cast(update.KVPair.Key, model.TierKey).Name in poc.tiers)
+//@   ensures istype(update.KVPair.Key, model.TierKey) && update.KVPair.Value != nil ==> poc.tiers[cast(update.KVPair.Key, model.TierKey).Name] != nil
+//@   ensures istype(update.KVPair.Key, model.TierKey) && update.KVPair.Value != nil ==> poc.tiers[cast(update.KVPair.Key, model.TierKey).Name].Order == cast(update.KVPair.Value, *model.Tier).Order && poc.tiers[cast(update.KVPair.Key, model.TierKey).Name].Valid
+//@   ensures istype(update.KVPair.Key, model.TierKey) && update.KVPair.Value != nil ==> poc.tiers[cast(update.KVPair.Key, model.TierKey).Name].DefaultAction == cast(update.KVPair.Value, *model.Tier).DefaultAction
